@@ -139,21 +139,29 @@ func (c *escapeCallsiteInfoImpl) Resolve(callee *ssa.Function) dataflow.EscapeCa
 		if len(callee.Params) != len(c.callsite.Call.Args) {
 			panic(fmt.Sprintf("Argument mismatch %s params %v args %v", callee.String(), callee.Params, c.callsite.Call.Args))
 		}
-		if c.callsite.Call.StaticCallee() == nil {
-			// An indirect function call, e.g. t3(t5)
-			for _, freeVar := range callee.FreeVars {
-				if IsEscapeTracked(freeVar.Type()) {
-					for closureNode := range c.g.Pointees(c.nodes.ValueNode(c.callsite.Call.Value)) {
-						mapNode(c.g.FieldSubnode(closureNode, freeVar.Name(), freeVar.Type()), nodes.ValueNode(freeVar))
+		_, isImmediateClosure := c.callsite.Call.Value.(*ssa.MakeClosure)
+		if c.callsite.Call.StaticCallee() == nil || isImmediateClosure {
+			// An indirect function call, e.g. t3(t5), or an immediately invoked function, i.e. t3(t5) where
+			// t3 = MakeClosure...
+			for closureNode := range c.g.Pointees(c.nodes.ValueNode(c.callsite.Call.Value)) {
+				if tp, ok := c.g.nodes.globalNodes.types[closureNode]; ok {
+					if IsAbstractType(tp) {
+						closureNode = c.g.ImplementationSubnode(closureNode, &FunctionImplType{callee.Signature, callee})
+					} else if funcImpl, ok := tp.(*FunctionImplType); ok && funcImpl.fun != callee {
+						continue // the closure node is not our concrete callee
 					}
 				}
-			}
-		} else if _, ok := c.callsite.Call.Value.(*ssa.MakeClosure); ok {
-			// A immediately invoked function, i.e. t3(t5) where t3 = MakeClosure...
-			for _, freeVar := range callee.FreeVars {
-				if IsEscapeTracked(freeVar.Type()) {
-					for closureNode := range c.g.Pointees(c.nodes.ValueNode(c.callsite.Call.Value)) {
-						mapNode(c.g.FieldSubnode(closureNode, freeVar.Name(), freeVar.Type()), nodes.ValueNode(freeVar))
+				for _, freeVar := range callee.FreeVars {
+					if IsEscapeTracked(freeVar.Type()) {
+						varFieldNode := c.g.FieldSubnode(closureNode, freeVar.Name(), freeVar.Type())
+						if c.g.status[closureNode] != Local {
+							// The closure object is external: as in transferCallIndirect, make sure there is a node
+							// representing the storage of the bound variable, otherwise the callee would be
+							// analyzed as if the free variable was nil.
+							loadOp := closureFreeVarLoad{c.callsite, freeVar.Name()}
+							c.g.EnsureLoadNode(loadOp, NillableDerefType(freeVar.Type()), varFieldNode)
+						}
+						mapNode(varFieldNode, nodes.ValueNode(freeVar))
 					}
 				}
 			}
